@@ -442,6 +442,28 @@ type Arr[T any] [3]T
 
 type Fn func(int) int
 
+type FnAlias = func(int) int
+
+type WithAlias struct {
+	pre  int8
+	f    FnAlias
+	post int8
+}
+
+type ArrAlias = [2]func()
+
+type WithArrAlias struct {
+	a    ArrAlias
+	post int8
+}
+
+type WideAlias = Wide
+
+type WithWideAlias struct {
+	pre int8
+	w   WideAlias
+}
+
 var (
 	_ Pair[int8]
 	_ Pair[int64]
